@@ -97,6 +97,9 @@ func c14Open(backend string) (*c14Inst, error) {
 	if backend == "fscache-enc" {
 		in.dsn += "&encrypt=on&encrypt_key=" + c14EncKey
 	}
+	if backend == "fscache-mtime" {
+		in.dsn += "&update_mtime=on"
+	}
 	in.conn, err = store.Open(in.dsn)
 	if err != nil {
 		return in, err
@@ -329,8 +332,9 @@ func firstDiff(a, b []byte) int {
 }
 
 type c14Scenario struct {
-	Backend string `json:"backend"`
-	Keys    []int  `json:"keys"` // indexes into c14Keys()
+	Backend string   `json:"backend"`
+	Keys    []int    `json:"keys"`          // indexes into c14Keys()
+	Raw     []string `json:"raw,omitempty"` // explicit keys (length sweep) instead of indexes
 }
 
 // c14Run replays path on a fresh instance; returns the mismatch (if any), the canonical state and the model.
@@ -340,11 +344,17 @@ func c14Run(sc c14Scenario, path []c14Op, tier string) (mismatch string, state s
 	for i, ki := range sc.Keys {
 		keys[i] = all[ki]
 	}
+	if len(sc.Raw) > 0 {
+		keys = sc.Raw
+	}
 	vals := c14Values(tier)
 	backend := sc.Backend
 	open := backend
 	if backend == "fscache+reopen" || backend == "fscache-api" {
 		open = "fscache"
+	}
+	if backend == "fscache-mtime" {
+		open = "fscache-mtime"
 	}
 	in, err := c14Open(open)
 	if err != nil {
@@ -413,7 +423,7 @@ func c14Scenarios(tier string) []c14Scenario {
 			if tier != "thorough" && len(s) == 3 && b != "fscache" && b != "fscache-enc" {
 				continue // quick: triples on the plain and the encrypted file-system backend only
 			}
-			out = append(out, c14Scenario{b, s})
+			out = append(out, c14Scenario{Backend: b, Keys: s})
 		}
 	}
 	return out
@@ -495,6 +505,50 @@ func customC14(t *testing.T, e *mc.Explorer) *mc.ShardResult {
 			res.Samples = append(res.Samples, map[string]any{"backend": sc.Backend, "keys": c14KeyNames(sc), "operations": len(ops), "reachable_states": len(seen), "fixpoint": !bad})
 		}
 	}
+	// ---- length sweep: for EVERY key length in a range that covers the file-name and fragment boundaries of any
+	// plausible layout, the key and an extension of it (key + "#0", key + "/x", key + "z") go through a fixed
+	// history on each file-system configuration, compared with the map after every step.
+	lo, hi := 150, 330
+	if e.Tier == "thorough" {
+		lo, hi = 1, 800
+	}
+	sweepPath := []c14Op{{"set", 0, 0}, {"set", 1, 1}, {"del", 0, 0}, {"set", 0, 1}, {"set", 1, 0}, {"reopen", 0, 0}, {"del", 1, 0}, {"set", 1, 2}, {"del", 0, 0}, {"del", 1, 0}}
+	swept := 0
+	for L := lo; L <= hi; L++ {
+		if L%e.Shards != e.Shard {
+			continue
+		}
+		if !e.Deadline.IsZero() && time.Now().After(e.Deadline) {
+			res.Exhaustive = false
+			break
+		}
+		base := "http://example.com/sweep?"
+		for len(base) < L {
+			base += string(rune('a' + len(base)%26))
+		}
+		base = base[:L]
+		for _, ext := range []string{"#0", "/x", "z"} {
+			for _, b := range []string{"fscache", "fscache-enc", "fscache-mtime"} {
+				sc := c14Scenario{Backend: b, Raw: []string{base, base + ext}}
+				mismatch, _, _ := c14Run(sc, sweepPath, e.Tier)
+				res.Executions++
+				res.Transitions += int64(len(sweepPath))
+				swept++
+				if mismatch != "" {
+					sig := "length sweep: " + c14Signature(sc, mismatch)
+					if v, ok := viol[sig]; ok {
+						v.Count++
+					} else {
+						detail, _ := json.Marshal(map[string]any{"scenario": sc, "path": sweepPath})
+						viol[sig] = &mc.Violation{Property: "C14", Signature: sig, Count: 1, Shard: e.Shard, Choices: []int{},
+							Message: fmt.Sprintf("backend %s, key of %d bytes and its extension by %q: %s", b, L, ext, mismatch),
+							Trace:   []mc.Pt{{Label: "replay", Desc: string(detail)}}}
+					}
+				}
+			}
+		}
+	}
+	res.Extra["length_sweep_histories"] = swept
 	sigs := make([]string, 0, len(viol))
 	for s := range viol {
 		sigs = append(sigs, s)
@@ -512,6 +566,12 @@ func customC14(t *testing.T, e *mc.Explorer) *mc.ShardResult {
 func c14KeyNames(sc c14Scenario) []string {
 	all := c14Keys()
 	var out []string
+	for _, k := range sc.Raw {
+		out = append(out, keyName(k))
+	}
+	if len(sc.Raw) > 0 {
+		return out
+	}
 	for _, k := range sc.Keys {
 		out = append(out, keyName(all[k]))
 	}
